@@ -1,7 +1,48 @@
 import Mutagen.Driver.Util
+import Mutagen.Driver.Tree
 namespace Mutagen.Driver.C05
+open Mutagen.Driver Mutagen.Driver.Tree Mutagen.Model
 
-/-- Model-side handler for one line of the C05 correspondence stream. -/
-def handle (_line : String) : String := "unimplemented"
+/-!
+Line: `<mode> <A> <alpha> <beta> <alpha results> <beta results>`.
+A results field is `!` (the endpoint's transition failed as a whole: no
+results are folded in, controller.go:1345/1356) or a change list
+`path=~>entry;…` giving, for every change planned for that endpoint, the
+entry the endpoint reported at the path (any order).
+
+The model reconciles, builds the controller's change list
+(controller.go:1379-1380: ancestor changes, then alpha results, then beta
+results), applies it to the ancestor (`Apply`) and validates the result
+(`EnsureValid(true)`, controller.go:1398).
+Answer: `<A'> <valid 0|1>` | `err:unresolved` | `err:panic` | `path-mismatch`
+(the results do not name exactly the planned paths).
+-/
+
+/-- Results for the planned changes, in plan order; `none` on a path mismatch. -/
+def pair (planned : List Change) (results : List Change) : Option (List Change) :=
+  if sortStrings (planned.map (showPath ·.path)) != sortStrings (results.map (showPath ·.path)) then none
+  else planned.mapM fun c =>
+    (results.find? (·.path == c.path)).map fun r => { path := c.path, old := none, new := r.new }
+
+def side (planned : List Change) (field : String) : Option (List Change) :=
+  if field == "!" then some [] else do pair planned (← parseChanges field)
+
+def handle (line : String) : String :=
+  match fields line with
+  | [m, a, al, be, ra, rb] =>
+    match parseTriple [m, a, al, be] with
+    | none => "bad-op"
+    | some (m, a, al, be) =>
+      let p := Reconcile a al be m
+      match parseChanges (if ra == "!" then "-" else ra), parseChanges (if rb == "!" then "-" else rb) with
+      | some _, some _ =>
+        match side p.alpha ra, side p.beta rb with
+        | some αChanges, some βChanges =>
+          match apply a (p.anc ++ αChanges ++ βChanges) with
+          | .ok a' => showOEntry a' ++ " " ++ showBool (oensureValid true a')
+          | r => showApplyResult r
+        | _, _ => "path-mismatch"
+      | _, _ => "bad-op"
+  | _ => "bad-op"
 
 end Mutagen.Driver.C05
